@@ -144,10 +144,7 @@ class Index:
                     prev()
                 return match, skipped
 
-            if len(compiled_matches) > 1:
-                stop = compiled_matches[-1]
-            else:
-                stop = self.prefix
+            stop = compiled_matches[-1]
             if since:
                 stop += b"\x00" + since
             match, skipped = next_match()
